@@ -294,6 +294,15 @@ class Binner(dict):
 
             _dohist(data, dmin, sortind, bsize, hist, revind=revind)
 
+        if revind is not None:
+            # data beyond the last bin are not counted (e.g. the largest value
+            # when nbin is sent). They sort to the end, so drop them from the
+            # reverse indices, otherwise they show up in the last filled bin
+            nrev = nbin + 1 + hist.sum()
+            if nrev < revind.size:
+                revind = revind[0:nrev]
+                revind[0: nbin + 1] = np.minimum(revind[0: nbin + 1], nrev)
+
         return hist, revind
 
     def _get_sort_index(self):
